@@ -90,3 +90,6 @@ func TestC03Regress(t *testing.T) { hx.Regress(t, hC03, "TestC03", propC03) }
 func TestC03(t *testing.T) {
 	hx.Check(t, hC03, "TestC03", func(rt *rapidT) History { return genHistory(rt, c03Cfg) }, propC03)
 }
+
+// TestC03Large: see heldBackHistories.
+func TestC03Large(t *testing.T) { runHeldBack(t, hC03, "TestC03", propC03) }
